@@ -161,6 +161,9 @@ func TestVerif_C02_windows(t *testing.T) {
 			size = 400000 + r.Intn(3) // keep byte-wise reads affordable
 		}
 		sp := c02WindowSpec(s, size)
+		if proto == "h1" && sp.declared {
+			sp.trailers = nil // an HTTP/1.1 origin cannot send trailers after a declared length
+		}
 		path := "/w" + strconv.Itoa(c)
 		origin.put(path, sp)
 		mode := c02Mode{"stream", k}
